@@ -52,3 +52,8 @@ Definition is_diag (hz : Z) (M : pmat) : bool :=
 Definition norm2 (hz : Z) (v : pvec) : poly := fold_right (fun x acc => nadd hz (nmul hz (pconj x) x) acc) pzero v.
 Definition norms_total (hz : Z) (vs : list pvec) : poly := fold_right (fun v acc => nadd hz (norm2 hz v) acc) pzero vs.
 Definition probs_total_one (hz : Z) (vs : list pvec) : bool := peqb hz (norms_total hz vs) pone.
+
+(* completeness of a Kraus set: sum_k K_k^dagger K_k = I *)
+Definition kraus_sum (hz : Z) (d : nat) (Ks : list pmat) : pmat :=
+  fold_right (fun K acc => p_madd hz (p_mmul hz (p_madj K) K) acc) (map (fun _ => map (fun _ => pzero) (seq 0 d)) (seq 0 d)) Ks.
+Definition kraus_complete (hz : Z) (d : nat) (Ks : list pmat) : bool := meqb hz (kraus_sum hz d Ks) (p_mident d).
